@@ -73,14 +73,16 @@ type CrashSignal struct{ AfterWrite int }
 
 // Store is the API server state.
 type Store struct {
-	mu     sync.Mutex
-	Scheme *runtime.Scheme
-	objs   map[Key]Obj
-	rv     int64
-	uid    int
-	clock  int64
-	seq    int
-	calls  int
+	mu             sync.Mutex
+	committedBytes int64
+	tooLarge       int
+	Scheme         *runtime.Scheme
+	objs           map[Key]Obj
+	rv             int64
+	uid            int
+	clock          int64
+	seq            int
+	calls          int
 
 	Log       []Write
 	CallLog   []Call
